@@ -41,7 +41,7 @@ func nonMatching(r *h.Rand) (age.Identity, string) {
 
 func runC01(cx *ctx) {
 	r := cx.rng
-	nLists := cx.n(40, 600)
+	nLists := cx.n(300, 3000)
 	for li := 0; li < nLists; li++ {
 		rr := r.Fork()
 		cx.ru.Do(func() *h.Case {
@@ -125,7 +125,7 @@ func runC01(cx *ctx) {
 		})
 	}
 	// byte-exact reproduction of the produced files (shared with C05) on a subset
-	for i := 0; i < cx.n(20, 200); i++ {
+	for i := 0; i < cx.n(100, 1000); i++ {
 		rr := r.Fork()
 		cx.ru.Do(func() *h.Case {
 			var ps []*party
